@@ -25,6 +25,11 @@ bool g_in_sim = false;          // true while simulated user code runs
 static char* const kArenaBase = reinterpret_cast<char*>(0x500000000000ull);
 static const size_t kArenaSize = 6ull << 30;
 static size_t g_off = 0;        // bytes used
+// One simulated ninja process on builds of a dozen statements needs a few MiB;
+// past this (256 MiB) it is a runaway allocation (a loop that appends forever), which the
+// kernel records as an abnormal end instead of letting it fill the whole arena.
+static const size_t kArenaBudget = 256ull << 20;
+void SimArenaExhausted();
 static size_t g_high = 0;       // high-water mark since last hard reset
 static bool g_descending = false;
 static bool g_mapped = false;
@@ -75,13 +80,13 @@ static void* ArenaAlloc(size_t n, size_t align) {
   char* p;
   if (!g_descending) {
     size_t start = (g_off + kRedzone + align - 1) & ~(align - 1);
-    if (start + need > kArenaSize) { fprintf(stderr, "simninja: arena exhausted\n"); _exit(2); }
+    if (start + need > kArenaBudget) SimArenaExhausted();
     p = kArenaBase + start;
     g_off = start + need;
   } else {
     size_t end = g_off + kRedzone + need;           // distance of block start from top
     end = (end + align - 1) & ~(align - 1);
-    if (end > kArenaSize) { fprintf(stderr, "simninja: arena exhausted\n"); _exit(2); }
+    if (end > kArenaBudget) SimArenaExhausted();
     p = kArenaBase + kArenaSize - end;
     g_off = end;
   }
